@@ -54,12 +54,26 @@ def run(db, rep, tier):
 
 
 def status_returns(f, name):
+    """sites at which the status `name` is produced: `return NAME;`, or - single-exit style - the store of NAME into the
+    local result variable that the function returns"""
     out = []
+    results = set()
     for n in facts.fn_nodes(f):
         if n["k"] == "ReturnStmt" and n.get("c"):
+            e0 = facts.strip_all(n["c"][0])
+            if e0["k"] == "DeclRefExpr" and e0.get("var") and not e0.get("parm") and not e0.get("enumc"):
+                results.add(e0["var"])
             for x in facts.walk(n["c"][0]):
                 if x["k"] == "DeclRefExpr" and (x.get("enumc") or "").endswith("::" + name):
                     out.append(n)
+    for n in facts.fn_nodes(f):
+        val = None
+        if n["k"] == "BinaryOperator" and n.get("op") == "=" and strip(n["c"][0]).get("var") in results:
+            val = n["c"][1]
+        elif n["k"] == "VarDecl" and n.get("var") in results and n.get("c"):
+            val = n["c"][0]
+        if val is not None and any(x["k"] == "DeclRefExpr" and (x.get("enumc") or "").endswith("::" + name) for x in facts.walk(val)):
+            out.append(n)
     return out
 
 
@@ -68,11 +82,14 @@ def r1(db, rep, proc):
     rets = status_returns(proc, "REASSEMBLED")
     if not rets:
         rep.violation("R1-complete", "process:returns", facts.loc(proc), "process() never returns REASSEMBLED")
+    # the local that receives allocate_pdu()'s result, whatever it is called
+    pvars = set(n["var"] for n in facts.fn_nodes(proc) if n["k"] == "VarDecl" and n.get("c") and
+                any(x["k"] == "CXXMemberCallExpr" and x.get("cname") == "allocate_pdu" for x in facts.walk(n["c"][0])))
     for i, r in enumerate(rets):
         gf = cond.guards_facts(g, g.pos(r))
         comp = any(op == "true" and "is_complete" in facts.expr_str(l) for op, l, rr in gf)
-        nonnull = any((op == "true" and facts.expr_str(l) == "pdu") or
-                      (op in ("!=",) and "pdu" == facts.expr_str(l)) for op, l, rr in gf)
+        nonnull = any((op == "true" and facts.strip_all(l).get("var") in pvars) or
+                      (op in ("!=",) and facts.strip_all(l).get("var") in pvars and rr is not None and facts.cval(rr) == 0) for op, l, rr in gf)
         key = "process:REASSEMBLED#%d" % i
         if comp and nonnull:
             rep.ok("R1-complete", key, facts.loc(proc, r), "dominated by stream.is_complete() and by the non-null test of the rebuilt payload")
@@ -109,18 +126,10 @@ def r1(db, rep, proc):
                       "statement requires %s" % (bad[0], bad[1], bad[2]))
     else:
         rep.ok("R1-complete", "is_complete:formula", facts.loc(ic), "truth table over %s equals end AND counts AND first0 (%d rows)" % (atoms, len(table)))
-    # allocate_pdu: null at the first gap
-    ap = fn1(db, STREAM + "::allocate_pdu")
-    g2 = cfg.FnCFG(ap)
-    ok = False
-    for n in facts.fn_nodes(ap):
-        if n["k"] == "ReturnStmt" and n.get("c") and (facts.cval(n["c"][0]) == 0):
-            gf = [(op, facts.inline_locals(ap, l), facts.inline_locals(ap, rr) if rr is not None else None)
-                  for op, l, rr in cond.guards_facts(g2, g2.pos(n))]
-            if any(op == "!=" and "offset()" in (facts.expr_str(l) + facts.expr_str(rr)) and "expected" in (facts.expr_str(l) + facts.expr_str(rr))
-                   for op, l, rr in gf if rr is not None):
-                inloop = any(l["k"] in ("ForStmt", "WhileStmt") and any(x is n for x in facts.walk(l)) for l in facts.fn_nodes(ap))
-                ok = inloop
+    # allocate_pdu: null at the first gap (the walk may live in a helper whose `false` makes allocate_pdu return null)
+    ap0 = fn1(db, STREAM + "::allocate_pdu")
+    ap, gap_rets = contiguity_site(db, ap0)
+    ok = bool(gap_rets)
     upd = [n for n in facts.fn_nodes(ap) if n["k"] == "BinaryOperator" and n["op"] == "=" and facts.expr_str(n["c"][0]) == "expected"
            and "offset()" in facts.expr_str(facts.inline_locals(ap, n["c"][1])) and "size()" in facts.expr_str(facts.inline_locals(ap, n["c"][1]))]
     if ok and upd:
@@ -129,6 +138,58 @@ def r1(db, rep, proc):
         rep.violation("R1-complete", "allocate_pdu:contiguity", facts.loc(ap),
                       "allocate_pdu() does not reject a gap between consecutive fragments (%s)" %
                       ("no `expected != offset -> return 0` inside the loop" if not ok else "running end is not offset + payload size"))
+
+
+def gap_returns(f, null_value):
+    """returns of `null_value` (0 / false) inside a loop of f under the guard `expected != <fragment offset>`"""
+    g2 = cfg.FnCFG(f)
+    out = []
+    for n in facts.fn_nodes(f):
+        if n["k"] == "ReturnStmt" and n.get("c") and facts.cval(n["c"][0]) == null_value:
+            gf = [(op, facts.inline_locals(f, l), facts.inline_locals(f, rr) if rr is not None else None)
+                  for op, l, rr in cond.guards_facts(g2, g2.pos(n))]
+            if any(op == "!=" and "offset()" in (facts.expr_str(l) + facts.expr_str(rr)) and "expected" in (facts.expr_str(l) + facts.expr_str(rr))
+                   for op, l, rr in gf if rr is not None):
+                if any(l["k"] in ("ForStmt", "WhileStmt") and any(x is n for x in facts.walk(l)) for l in facts.fn_nodes(f)):
+                    out.append(n)
+    return out
+
+
+def contiguity_site(db, ap):
+    """(function that walks the fragments, returns of allocate_pdu that report a gap)"""
+    own = gap_returns(ap, 0)
+    if own:
+        return ap, own
+    g = cfg.FnCFG(ap)
+    for c in facts.fn_nodes(ap):
+        if c["k"] != "CXXMemberCallExpr" or not c.get("callee"):
+            continue
+        h = db.fn(c["callee"])
+        if h is None or not h.get("body") or h.get("rec") != ap.get("rec") or (facts.tyi(h, h.get("ret")) or {}).get("k") != "bool":
+            continue
+        if not gap_returns(h, 0):
+            continue
+        # the helper's `false` must make allocate_pdu return null
+        rets = []
+        for r_ in facts.fn_nodes(ap):
+            if r_["k"] == "ReturnStmt" and r_.get("c") and facts.cval(r_["c"][0]) == 0:
+                if any(op == "false" and facts.strip_all(l) is c or (op == "false" and any(x is c for x in facts.walk(l)))
+                       for op, l, rr in cond.guards_facts(g, g.pos(r_))):
+                    rets.append(r_)
+        if rets and g.reaches_exit_avoiding(g.pos(c), [g.pos(r_) for r_ in rets], skip_edges=_true_edges(g, c)) is None:
+            return h, rets
+    return ap, []
+
+
+def _true_edges(g, call):
+    """edges taken when the condition that contains `call` is true (helper reported success)"""
+    out = set()
+    for b in g.blocks.values():
+        cnode = g.idx.get(b.get("cond")) if b.get("cond") is not None else None
+        if cnode is not None and len(b["s"]) == 2 and any(x is call for x in facts.walk(cnode)):
+            c0, neg = cond.peel(cnode)
+            out.add((b["id"], 1 if neg else 0))
+    return out
 
 
 def calls_named(f, name, recv_contains=None):
@@ -286,7 +347,7 @@ def r4(db, rep):
     pi, pa = g.pos(ins[0]), g.pos(adds[0])
     w1 = g.covered(pi, [pa])
     w2 = g.covered(pa, [pi])
-    same = "inner_pdu()" in facts.expr_str(ins[0]) and "inner_pdu()->size()" in facts.expr_str(adds[0]["c"][1])
+    same = "inner_pdu()" in facts.expr_str(ins[0]) and "inner_pdu()->size()" in facts.expr_str(facts.inline_locals(af, adds[0]["c"][1]))
     if w1 is None and w2 is None and same:
         rep.ok("R4-accounting", "add_fragment:pairing", facts.loc(af, ins[0]), "insertion and received_size_ += size of the same payload on the same paths")
     else:
@@ -340,7 +401,8 @@ def r4(db, rep):
     tot = [n for n in facts.fn_nodes(af) if n["k"] == "BinaryOperator" and n["op"] == "=" and "total_size_" in facts.expr_str(n["c"][0])]
     if last and tot and g.pos(last[0])[0] == g.pos(tot[0])[0]:
         gf = cond.guards_facts(g, g.pos(last[0]))
-        if any("MORE_FRAGMENTS" in facts.expr_str(l) or "MORE_FRAGMENTS" in facts.expr_str(rr or {}) for op, l, rr in gf):
+        # the MF test, wherever it is spelled (named local, one-line accessor of the class)
+        if any("MORE_FRAGMENTS" in facts.deep_text(db, af, l) or (rr is not None and "MORE_FRAGMENTS" in facts.deep_text(db, af, rr)) for op, l, rr in gf):
             rep.ok("R4-accounting", "add_fragment:last-fragment", facts.loc(af, last[0]), "total size and end flag recorded together when MF is clear")
             return
     rep.violation("R4-accounting", "add_fragment:last-fragment", facts.loc(af), "total size / end-seen flag are not recorded together under the MF-clear test")
@@ -381,8 +443,9 @@ def r6(db, rep):
             return "a null pointer constant"
         return "`%s` may be null" % facts.expr_str(e0)[:60]
     n = 0
+    _, gaps = contiguity_site(db, af)
     for r in facts.fn_nodes(af):
-        if r["k"] != "ReturnStmt" or not r.get("c") or in_loop(r):
+        if r["k"] != "ReturnStmt" or not r.get("c") or in_loop(r) or any(r is x for x in gaps):
             continue
         n += 1
         key = "allocate_pdu:return#%d" % n
